@@ -15,6 +15,11 @@ RULE = ("(schema, JSON value) pairs; the value is realised in its canonical enco
         "const built from the instance or a one-leaf mutation of it, numeric bounds at the value, string lengths, uniqueItems, properties, "
         "required, min/maxProperties, items, contains). Observed on the real package directly: all 4 verdicts equal; and = model. "
         "Non-trivial: the value is a container or a number; distinct = operation text")
+RULE += (". Widened (~8%): OBJECT instances whose keys look like numbers (\"1\", \"1.0\", \"1e2\", \"-0\", …) carried by maps of every "
+         "string-kind key type — map[string]T, map[MyString]T and map[json.Number]T (encoding/json writes all three as objects) — against "
+         "propertyNames (type, minLength / maxLength, pattern, const, enum, numeric bounds), patternProperties, properties, required, "
+         "dependentRequired, additionalProperties, min/maxProperties. The model's value language has no json.Number-keyed maps: for those "
+         "representations the verdict is compared with the canonical decoding's (the statement itself), for all others also with the model")
 ASSUMPTIONS = ["nil slices, nil maps and struct instances are outside the property's domain"]
 
 
@@ -62,9 +67,94 @@ def schema_for(rng, j):
     return o
 
 
+NUMKEYS = ["1", "1.0", "1e2", "12345", "-0", "0", "1.5", "10", "100", "1E2", "2", "-1", "a", "", "01", "1a", "é"]
+NAME_PATTERNS = ["^[0-9]", "[0-9]$", "^[0-9]+$", "\\d", "^1", "e", "\\.", "^.{2}$", "^1$", "^-", "^[^0-9]", "^$", "."]
+
+
+def names_schema(rng, keys):
+    """A schema for property NAMES: it tells strings from numbers, or looks at the spelling."""
+    o = Obj()
+    for _ in range(rng.choice([1, 1, 2])):
+        r = rng.random()
+        if r < 0.25:
+            o.set("type", rng.choice(["string", "string", "number", "integer", ["string", "null"], ["number", "boolean"]]))
+        elif r < 0.45:
+            o.set(rng.choice(["minLength", "maxLength"]), Num(str(rng.randint(0, 4))))
+        elif r < 0.6:
+            o.set("pattern", rng.choice(NAME_PATTERNS))
+        elif r < 0.72:
+            k = rng.choice(keys + NUMKEYS)
+            o.set("const", k if rng.random() < 0.6 or not _numeric(k) else Num(gv.dec(_frac(k))))
+        elif r < 0.87:
+            vals = []
+            for k in rng.sample(keys + NUMKEYS, rng.randint(1, 4)):
+                vals.append(k if rng.random() < 0.6 or not _numeric(k) else Num(gv.dec(_frac(k))))
+            o.set("enum", vals)
+        elif r < 0.95:
+            o.set(rng.choice(["minimum", "maximum", "exclusiveMinimum", "exclusiveMaximum"]), Num(rng.choice(["0", "1", "2", "100"])))
+        else:
+            o.set("not", Obj([("type", "string")]))
+    return o
+
+
+def _numeric(k):
+    try:
+        _frac(k)
+        return k not in ("", "01") and not k.startswith("+")
+    except Exception:
+        return False
+
+
+def _frac(k):
+    from fractions import Fraction
+    return Fraction(k)
+
+
+def numeric_keys_case(rng):
+    keys = rng.sample(NUMKEYS, rng.randint(1, 4))
+    et = rng.choice(["mixed", "mixed", "int", "string", "bool"])
+    val = {"mixed": lambda: gv.gen_json(rng, 1), "int": lambda: Num(str(rng.randint(-3, 3))), "string": lambda: rng.choice(gv.STRINGS),
+           "bool": lambda: rng.random() < 0.5}[et]
+    j = Obj([(k, val()) for k in keys])
+    if not gv.float64_ok(j):
+        return None
+    pool = list(dict.fromkeys(keys + NUMKEYS[:6]))       # no name twice: duplicate object keys are outside every property
+    o = Obj()
+    for _ in range(rng.choice([1, 1, 2, 3])):
+        r = rng.random()
+        if r < 0.5:
+            o.set("propertyNames", names_schema(rng, keys))
+        elif r < 0.65:
+            ps = rng.sample(NAME_PATTERNS, rng.randint(1, 2))
+            o.set("patternProperties", Obj([(p, schema_for(rng, gv.gen_json(rng, 0))) for p in ps]))
+            if rng.random() < 0.6:
+                o.set("additionalProperties", rng.random() < 0.3)
+        elif r < 0.77:
+            o.set("required", rng.sample(pool, rng.randint(1, 2)))
+        elif r < 0.87:
+            o.set("properties", Obj([(k, schema_for(rng, gv.gen_json(rng, 0))) for k in rng.sample(pool, 2)]))
+            if rng.random() < 0.5:
+                o.set("additionalProperties", rng.random() < 0.3)
+        elif r < 0.93:
+            o.set("dependentRequired", Obj([(rng.choice(keys), [rng.choice(keys + NUMKEYS[:4])])]))
+        else:
+            o.set(rng.choice(["minProperties", "maxProperties"]), Num(str(rng.randint(0, 3))))
+    if rng.random() < 0.25:
+        # the object one level down
+        j = rng.choice([[j], Obj([("a", j)])])
+        o = Obj([("items", o)]) if isinstance(j, list) else Obj([("properties", Obj([("a", o)]))])
+    reprs = [gv.canonical_repr(j)] + [gv.represent_keyed(rng, j, kt) for kt in (("jnum",), ("jnum", "mystring"), ("string", "mystring", "jnum"))]
+    return {"op": "validate", "args": {"schema": o, "ginsts": reprs}, "meta": {"nt": True, "numkeys": True}}
+
+
 def gen(rng, tier, n):
     ops = []
     while len(ops) < n:
+        if rng.random() < 0.08:
+            o = numeric_keys_case(rng)
+            if o is not None:
+                ops.append(o)
+            continue
         j = gv.gen_json(rng, 3 if tier == "quick" else 4)
         if not gv.float64_ok(j):
             continue
@@ -110,7 +200,37 @@ def nontrivial(o):
     return (o.get("meta") or {}).get("nt", False)
 
 
+def _jnum_keyed(d):
+    """does the descriptor contain a map whose key type is json.Number (no counterpart in the model's value language)?"""
+    if isinstance(d, dict):
+        if isinstance(d.get("t"), str) and "map[jnum]" in d["t"]:
+            return True
+        return _jnum_keyed(d.get("v"))
+    if isinstance(d, list):
+        return any(_jnum_keyed(x) for x in d)
+    return False
+
+
 def judge(o, go, m):
+    gi = o["args"].get("ginsts") or []
+    unm = [i for i, d in enumerate(gi) if _jnum_keyed(d)]
+    if unm and go is not None and go.get("outcome") == "resolved" and m and (m.get("model") or {}).get("outcome") == "resolved":
+        # representations the model cannot express (json.Number-keyed maps): everything else is judged against the model as usual,
+        # on the operation restricted to the other representations; those get the statement's own oracle below
+        keep = [i for i in range(len(gi)) if i not in unm]
+        pick = lambda xs: [xs[i] for i in keep] if isinstance(xs, list) and len(xs) == len(gi) else xs
+        o2 = dict(o, args=dict(o["args"], ginsts=pick(gi)))
+        go2 = dict(go, verdicts=pick(go.get("verdicts")))
+        m2 = dict(m, model=dict(m["model"], verdicts=pick(m["model"].get("verdicts"))), spec=pick(m.get("spec")))
+        st, d = vjudge.judge_validate(o2, go2, m2)
+        if st not in ("agree", "skip"):
+            return st, d
+        vs = go.get("verdicts") or []
+        if "panic" in vs:
+            return "violation", "the real package panics on a representation: %r" % (vs,)
+        if vs and any(v != vs[0] for v in vs):
+            return "violation", "verdict depends on the representation: %r (first = canonical decoding)" % (vs,)
+        return st, d
     st, d = vjudge.judge_validate(o, go, m)
     if st == "skip" and go is not None and go.get("outcome") == "resolved":
         # outside the model's domain (float multipleOf beyond 2^50): the property itself is still observed on the real package —
